@@ -37,7 +37,9 @@ TRUSTED = [
 ASSUMPTIONS = ["'undeclared' faults (P0012 P0015 P0021 P0022) may legitimately be cured by added declarations and are excluded from "
                "the masking check, as the property says"]
 
-CURABLE = {"P0012", "P0015", "P0021", "P0022"}
+# faults that added declarations may legitimately cure: an undeclared type / function block / enumeration (not an undeclared
+# variable: variables are declared inside the POU that uses them, so no other top-level declaration can supply one)
+CURABLE = {"P0012", "P0021", "P0022"}
 
 
 def failed(r):
@@ -72,6 +74,14 @@ def search(run, info):
         chosen.append(("SYN", "syntax error", syntax))
         for code, what, ftext in chosen:
             comps = rng.sample(pool_texts, ncomp)
+            if code == "P0015":
+                # company that declares the very name the faulty POU misses -- as a local of another POU, and as a POU name
+                import re as _re
+                m = _re.search(r"(undeclared_\d+) := 1;", ftext)
+                if m:
+                    nm = m.group(1)
+                    comps = comps[:-1] + ["FUNCTION_BLOCK Helper_%s\nVAR %s : INT; END_VAR\n%s := 2;\nEND_FUNCTION_BLOCK\n"
+                                          "PROGRAM %s\nVAR hq : INT; END_VAR\nhq := 3;\nEND_PROGRAM\n" % (nm, nm, nm, nm.upper() + "x")]
             files = [("bad.st", ftext)] + [("c%d.st" % k, t) for k, t in enumerate(comps)]
             orders = list(itertools.permutations(range(len(files))))
             if len(orders) > 6:
